@@ -244,6 +244,9 @@ impl<'tcx> BorrowingParamVisitor<'tcx> {
         ty: &hir::Type<P>,
         param_name: &str,
     ) -> ParamBorrowInfo<'tcx> {
+        // An optional struct or slice (`Option<T>`) borrows exactly like `T` does
+        let is_option = ty.is_option();
+        let ty = ty.unwrap_option();
         let mut is_borrowed = false;
         if self.used_method_lifetimes.is_empty() {
             if let hir::Type::Slice(..) = *ty {
@@ -278,7 +281,7 @@ impl<'tcx> BorrowingParamVisitor<'tcx> {
                                 kind: LifetimeEdgeKind::StructLifetime(
                                     link.def_env(),
                                     def_lt,
-                                    ty.is_option(),
+                                    is_option,
                                 ),
                             };
                             method_lifetime_info.incoming_edges.push(edge);
